@@ -88,6 +88,38 @@ pub fn main(args: &crate::Args) {
             todo.push((prog.calls, format!("gen:{seed}:{i}")));
         }
     }
+    // wide Public / Const tables with aliased inputs (`connect(pub_i, pub_j)`, `connect(pub_i, const)`): the tables whose
+    // preprocessing is worth parallelising; together with the `par` build (rayon on) and several pool sizes they expose a
+    // split-dependent creator / reader assignment. Always with the commitment in the digest.
+    let nwide = args.u64("wide", 0) as usize;
+    for k in 0..nwide {
+        let mut r = Rng::new(seed ^ 0x51de ^ ((k as u64) << 20));
+        let n = [64usize, 256, 1024, 300][k % 4];
+        let mut lines: Vec<String> = (0..n).map(|_| "pub".to_string()).collect(); // nodes 1..=n (node 0 is the zero constant)
+        let nconst = 1 + r.usize(6);
+        for c in 0..nconst {
+            lines.push(format!("const {}", 3 + 7 * c)); // nodes n+1 ..
+        }
+        let nalias = n / 8 + r.usize(n / 4);
+        for _ in 0..nalias {
+            let a = 1 + r.usize(n);
+            let b = 1 + r.usize(n);
+            if a != b {
+                lines.push(format!("conn {a} {b}"));
+            }
+        }
+        for c in 0..nconst {
+            if r.chance(1, 2) {
+                lines.push(format!("conn {} {}", 1 + r.usize(n), n + 1 + c));
+            }
+        }
+        for _ in 0..(4 + r.usize(12)) {
+            let (a, b) = (1 + r.usize(n), 1 + r.usize(n));
+            lines.push(if r.chance(1, 2) { format!("mul {a} {b}") } else { format!("add {a} {b}") });
+        }
+        let calls: Vec<Call> = lines.iter().filter_map(|l| crate::c02::parse_call(l)).collect();
+        todo.push((calls, format!("wide:{seed}:{k}:{n}")));
+    }
     // the same programs for the Lean driver: it evaluates the decidable hypotheses of
     // `P3R.C18.compile_order_independent` (`c18inv`) on each of them (bin/checks_c18.py reads the answers)
     if args.u64("cases", 0) == 1 {
@@ -106,7 +138,7 @@ pub fn main(args: &crate::Args) {
     }
     let mut evals = 0usize;
     for (n, (calls, id)) in todo.iter().enumerate() {
-        let with_commit = n % commit_every == 0;
+        let with_commit = n % commit_every == 0 || id.starts_with("wide:");
         let first = build_dump(calls, with_commit);
         let Some(first) = first else {
             writeln!(f, "{id} build-err").unwrap();
